@@ -114,6 +114,10 @@ class C16:
                 lim.append(2 ** b + d)
         lim += [0, 1, 9, 10, 10 ** 19, 10 ** 19 - 1, 10 ** 20, M64 * 10, M64 * 10 + 5, 2 ** 63, 2 ** 65, 10 ** 30,
                 (M64 // 10) * 10, (M64 // 10) * 10 + 9, (M64 // 10 + 1) * 10]
+        lim += [2 ** 64 + d for d in range(-40, 41)] + [2 ** 32 + d for d in range(-12, 13)]
+        lim += [M64 * 10 + d for d in range(0, 10)] + [(M64 // 10) * 100 + d for d in (0, 5, 6, 99)]
+        lim += [int("2" + "0" * 19), int("3" + "0" * 19), int("9" * 20), int("18446744073709551" + "%03d" % k) for k in ()] if False else []
+        lim += [20000000000000000000, 30000000000000000000, 99999999999999999999, 18446744073709552000, 18446744073709560000]
         for v in lim:
             for pre in ("", "0", "000"):
                 for code in (213, 212, 200, 550):
@@ -132,6 +136,8 @@ class C16:
         for _ in range(6000 if thorough else 1000):
             n = rng.choice([1, 2, 3, 5, 10, 18, 19, 20, 21, 25])
             t = "".join(rng.choice("0123456789") for _ in range(n))
+            if n >= 20 and rng.random() < 0.7:     # just above 2^64: the overflow checks of the digit loop
+                t = "1844674407370955" + t[16:]
             if rng.random() < 0.2:
                 p = rng.randrange(len(t) + 1)
                 t = t[:p] + rng.choice(" .-+ax\x00\xff") + t[p:]
@@ -154,7 +160,7 @@ class C16:
             for suf in ("", ".", ".5"):
                 cases.append("mdtm 213 " + S("213 " + STEM[:n] + suf))
                 dist.add("mdtm:short-stem")
-        for v in [0, 1, 2 ** 32 - 1, 2 ** 32, 2 ** 32 + 1, 2 ** 64 - 1, 2 ** 64, 10 ** 25]:
+        for v in [0, 1, 2 ** 32 - 1, 2 ** 32, 2 ** 32 + 1, 2 ** 64 - 1, 2 ** 64, 10 ** 25] + [2 ** 64 + d for d in range(1, 40)] + [2 ** 32 * 10 + d for d in range(10)]:
             for pre in ("", "00"):
                 cases.append("mdtm 213 " + S("213 " + STEM + "." + pre + str(v)))
                 dist.add("mdtm:fraction-limits")
